@@ -6,8 +6,9 @@ The analyses are taken through their ABSTRACT interface (stand-in `DUModel` for 
     du.defs                 the SSA definitions (a sequence of opaque keys `Key[Definition]`)
     du.uses[d]              the use sites of definition d (`Key[UseSite]`)
     du.successors[d]        the definitions that have d as `prev` / phi argument
-    reach_use(f, u, y)      index (into du.defs) of the definition of name y that reaches the use site u
-    reach_site(f, s, y)     index of the definition of name y that reaches the entry of statement s
+    du.name_to_defs[y]      all (re-)definitions of the name y
+    reach_use(du, u, y)     index (into du.defs) of the definition of name y that reaches the use site u
+    reach_site(du, s, y)    index of the definition of name y that reaches the entry of statement s
 both `reach_*` are uninterpreted ghosts (natively: spec/c07_ref.py reads them off ReachingDefs.reach).
 AST nodes and definitions are abstract nodes (pyvc/absnodes.py): the class of a node is symbolic, its
 attributes are uninterpreted functions declared in KEY_ATTRS.
@@ -28,6 +29,7 @@ class DUModel:
     uses: 'dict[Key[Definition], set[Key[UseSite]]]'
     successors: 'dict[Key[Definition], set[Key[Definition]]]'
     use_to_def: 'dict[Key[UseSite], Key[Definition]]'
+    name_to_defs: 'dict[Key[NamedId], set[Key[Definition]]]'
 
     def find_def_from_use(self, site):
         """mirror of DefineUseAnalysis.find_def_from_use (3 lines; the stand-in has no code of its own otherwise)"""
@@ -74,12 +76,17 @@ def copied_name(d):
     return key_attr(copy_rhs(d), 'name')
 
 
-def reach_use(f, u, y):
-    return ghost('reach_use', f, u, y)
+def reach_use(du, u, y):
+    return ghost('reach_use', du, u, y)
 
 
-def reach_site(f, s, y):
-    return ghost('reach_site', f, s, y)
+def reach_site(du, s, y):
+    return ghost('reach_site', du, s, y)
+
+
+def is_def_of(du, i, y):
+    """i is the index of a definition of the name y: in range, and a member of name_to_defs[y]"""
+    return 0 <= i and i < seq_len(du.defs) and set_map_has(du.name_to_defs, y, seq_at(du.defs, i))
 
 
 def stable(f, d):
@@ -87,8 +94,8 @@ def stable(f, d):
     that reaches u is the one that reaches the copy itself (y is not redefined in between)"""
     du = f.def_use
     y = copied_name(d)
-    here = reach_site(f, key_attr(d, 'site'), y)
-    return forall_keys('UseSite', lambda u: implies(set_map_has(du.uses, d, u), reach_use(f, u, y) == here))
+    here = reach_site(du, key_attr(d, 'site'), y)
+    return forall_keys('UseSite', lambda u: implies(set_map_has(du.uses, d, u), reach_use(du, u, y) == here))
 
 
 def has_uses(du, d):
@@ -99,15 +106,27 @@ def name_selected(names, d):
     return True if names is None else (key_attr(d, 'name') in names)
 
 
+def at_most_one_def(du, y):
+    """the name y is defined at most once in the whole function (the pass's conservative test for `y is never redefined`)"""
+    return forall_keys('Definition', lambda a: forall_keys('Definition', lambda b: implies(
+        set_map_has(du.name_to_defs, y, a) and set_map_has(du.name_to_defs, y, b), a == b)))
+
+
 def selected(f, names, d):
-    """d is one of the definitions copy propagation rewrites"""
-    return name_selected(names, d) and plain_copy(d) and has_uses(f.def_use, d)
+    """d is one of the definitions copy propagation rewrites: EXACTLY the keys of its substitution
+    (invariant `exact` of CopyPropagate_apply_with_status ties this description to the code)"""
+    return (name_selected(names, d) and plain_copy(d) and has_uses(f.def_use, d)
+            and at_most_one_def(f.def_use, copied_name(d)))
 
 
 @invariant('spec.c07:DUModel')
 def du_wellformed(du):
     """ASSUMED shape of the abstract interface (DefineUseAnalysis.__init__ / _DefineUseInstance.__init__ build
-    `uses` and `successors` with one entry per element of `defs`)"""
+    `uses` and `successors` with one entry per element of `defs`; ReachingDefs builds `name_to_defs` and the
+    reaching-definition contexts from the same definitions).  In particular (R1, R2): EVERY REACHING DEFINITION OF A
+    NAME, AT A USE OR AT A SITE, IS A MEMBER OF name_to_defs[name] -- hence a name with at most one definition has the
+    same reaching definition wherever it is defined.  Checked natively on the candidate programs by
+    tools/c07_wellformed.py; never verified."""
     n = seq_len(du.defs)
     return (forall_ints(lambda i: implies(0 <= i and i < n, (seq_at(du.defs, i) in du.uses) and (seq_at(du.defs, i) in du.successors)))
             # the keys of `uses` / `successors` are the definitions
@@ -120,7 +139,21 @@ def du_wellformed(du):
             and forall_keys('Definition', lambda a: forall_keys('Definition', lambda b: implies(
                 (a in du.uses) and (b in du.uses) and key_isa(a, 'AssignDef') and key_isa(b, 'AssignDef')
                 and key_attr(a, 'site') == key_attr(b, 'site') and key_isa(key_attr(a, 'site'), 'Assign')
-                and key_isa(key_attr(key_attr(a, 'site'), 'target'), 'Id'), a == b))))
+                and key_isa(key_attr(key_attr(a, 'site'), 'target'), 'Id'), a == b)))
+            # ---- reaching definitions vs name_to_defs (what justifies copy propagation's conservative test
+            #      `len(name_to_defs[y]) <= 1`):
+            # (R0) defs lists every definition once (def_to_idx is a bijection)
+            and forall_ints(lambda i: forall_ints(lambda j: implies(
+                0 <= i and i < n and 0 <= j and j < n and seq_at(du.defs, i) == seq_at(du.defs, j), i == j)))
+            # (R1) the variable y read by a plain copy `x = y` has a reaching definition at the copy, and that
+            #      definition is one of name_to_defs[y]
+            and forall_keys('Definition', lambda d: implies((d in du.uses) and plain_copy(d),
+                                                            is_def_of(du, reach_site(du, key_attr(d, 'site'), copied_name(d)), copied_name(d))))
+            # (R2) at every use of the copy, y still has a reaching definition (definitions are never killed: a use
+            #      of d is reached only through d's site) and it is again one of name_to_defs[y]
+            and forall_keys('Definition', lambda d: forall_keys('UseSite', lambda u: implies(
+                (d in du.uses) and plain_copy(d) and set_map_has(du.uses, d, u),
+                is_def_of(du, reach_use(du, u, copied_name(d)), copied_name(d))))))
 
 
 # ------------------------------------------------------------------ O3: literal emission
@@ -177,10 +210,22 @@ def assign_rhs(d):
     return key_attr(key_attr(d, 'site'), 'expr')
 
 
+def no_phi_successor(du, d):
+    """no phi has d as an argument"""
+    return forall_keys('Definition', lambda s: not (set_map_has(du.successors, d, s) and key_isa(s, 'PhiDef')))
+
+
+def dead_phi(du, p):
+    """the phi p is itself unread: no use site and no further phi takes it as an argument"""
+    return no_uses(du, p) and no_phi_successor(du, p)
+
+
 def removable(f, d):
-    """THE SIDE CONDITION of removing the assignment that introduces d: nothing reads d and evaluating its
-    right-hand side has no effect"""
-    return no_uses(f.def_use, d) and pure_expr(assign_rhs(d))
+    """THE SIDE CONDITION of removing the assignment that introduces d: nothing reads d -- no use site, and every
+    phi that takes d as an argument is itself unread -- and evaluating its right-hand side has no effect"""
+    du = f.def_use
+    return (no_uses(du, d) and pure_expr(assign_rhs(d))
+            and forall_keys('Definition', lambda s: implies(set_map_has(du.successors, d, s) and key_isa(s, 'PhiDef'), dead_phi(du, s))))
 
 
 def marked(f, marks, d):
@@ -194,4 +239,4 @@ def marks_removable(f, marks):
 
 
 def phis_unused(f, phis):
-    return forall_keys('Definition', lambda k: implies(k in phis, key_isa(k, 'PhiDef') and (k in f.def_use.uses) and no_uses(f.def_use, k)))
+    return forall_keys('Definition', lambda k: implies(k in phis, key_isa(k, 'PhiDef') and (k in f.def_use.uses) and dead_phi(f.def_use, k)))
